@@ -316,11 +316,11 @@ def witness_search(ctx: Ctx, thorough: bool):
     all-max neighbours, pairwise extremes, data lengths around every power-of-two boundary) against the checker's own
     CCSDS packer: turns any unprovable variant into a concrete counterexample and cross-checks the table rules."""
     from ..harness import Harness
-    from ..interp import BytesObj, Raised
+    from ..interp import BytesObj, Raised, StepLimit
     from ..models import ccsds_bytes, source_externals
     prog = ctx.prog
     fi = prog.func(f"{PK}::create_ccsds_packet")
-    h = Harness(prog, source_externals(), max_steps=400000)
+    h = Harness(prog, source_externals(), max_steps=2_000_000)
     combos = []
     maxes = {f: 2 ** w - 1 for f, w in FIELDS}
     for base in (0, "max"):
@@ -398,6 +398,10 @@ def witness_search(ctx: Ctx, thorough: bool):
                 kind, got = h.outcome("create_ccsds_packet(data)", PK, data=bytes(ln))
                 if not (kind == "raise" and got == "ValueError"):
                     bad = f"{ln} data bytes are {'accepted' if kind == 'ok' else 'rejected with ' + str(got)}; must be rejected with ValueError"
+    except StepLimit as e:
+        # one packet of at most 65542 bytes: a clean framer needs a few hundred interpreter steps (slices are native)
+        bad = (f"constructing / re-framing a single packet ({n} cases in) does not finish within {h.it.max_steps} interpreter steps "
+               f"({e}): the framer no longer re-frames the packet as that single packet")
     except Unsupported as e:
         ctx.unknown("R13.w", site, str(e))
         return
